@@ -5,6 +5,12 @@
   (the only operations other threads perform on the same variables outside the mutex are the
   atomic add / load on `activeCount` and `shutdownRequested`, which are steps of their own here).
 
+  What a datagram goroutine captured when it was spawned (receiving Serve call — hence conn —,
+  source address, datagram) is recorded per task in `St.origin`; the log records the read (`recv`),
+  the `Request` handed to the handler (`request`: packet, RemoteAddr, the conn whose LocalAddr it
+  carries, context) and every `ResponseWriter.Write` of a running handler (`reply`: conn, addr; label
+  `taskReply`).  Replies written after the handler has returned are outside the model.
+
   Two variants of `Serve`'s registration:
     `.fixed`   — `activeAdd` happens before `mu.Unlock()` (the code after the C07 repair);
     `.current` — the listener is registered under the mutex and counted in a later step (the code
@@ -80,6 +86,23 @@ structure Task where
   pc : TaskPc
 deriving DecidableEq, Repr
 
+/-- what the datagram goroutine captured when it was spawned (the closure variables of
+    `go func(buff, remoteAddr)`): `conn` (through the Serve call that read the datagram), the
+    source address `remoteAddr` and the copy of the datagram.  Written once by `serveRecv`, never
+    changed afterwards. -/
+structure Origin where
+  serve : Nat
+  peer : Nat
+  dgram : Bytes
+deriving DecidableEq, Repr
+
+/-- the contexts of the model: the server's own (`s.ctx`, cancelled by Shutdown) and the one a
+    caller handed to Shutdown call `j` -/
+inductive Ctx where
+  | server
+  | caller (j : Nat)
+deriving DecidableEq, Repr
+
 inductive DownRes where
   | nil | ctxErr
 deriving DecidableEq, Repr
@@ -104,6 +127,13 @@ inductive Event where
   | downReturned (down : Nat) (r : DownRes)
   | listenerClosed (conn : Nat)
   | doubleClose
+  /-- `ReadFrom` of Serve call `serve` returned datagram `d` from `peer`; goroutine `task` spawned -/
+  | recv (task serve peer : Nat) (d : Bytes)
+  /-- the `Request` built for the handler of `task`: `Packet`, `RemoteAddr`, `LocalAddr` (the local
+      address of conn `localConn`) and `ctx` -/
+  | request (task : Nat) (p : Packet) (remote localConn : Nat) (ctx : Ctx)
+  /-- `packetResponseWriter.Write` of `task`'s handler: `conn.WriteTo(_, addr)` -/
+  | reply (task conn addr : Nat)
 deriving DecidableEq, Repr
 
 structure St where
@@ -117,9 +147,23 @@ structure St where
   connClosed : List Nat := []           -- per conn: Close() calls
   inflight : List (List Key) := []      -- per Serve: the `requests` table
   tasks : List Task := []
+  origin : List Origin := []            -- per task: what its goroutine captured (see `Origin`)
   downs : List Down := []
   log : List Event := []
 deriving Repr
+
+/-- `remoteAddr` as captured by datagram goroutine `t` -/
+def St.peerOf (s : St) (t : Nat) : Nat :=
+  match s.origin[t]? with
+  | some o => o.peer
+  | none => 0
+
+/-- whether a context has ended -/
+def St.ctxEnded (s : St) : Ctx → Bool
+  | .server => s.ctxCancelled
+  | .caller j => match s.downs[j]? with
+    | some d => d.ctxDone
+    | none => false
 
 /-- initial state: Serve call `i` will be made with conn `conns[i]` -/
 def initWith (conns : List Nat) (nDowns : Nat) : St :=
@@ -152,6 +196,7 @@ inductive Label where
   | serveReadFail (i : Nat) (k : ReadErrKind) -- ReadFrom failed for another reason (environment)
   | taskRun (t : Nat)                        -- the goroutine runs its pipeline up to the handler call
   | taskFinish (t : Nat)                     -- the handler returns
+  | taskReply (t : Nat)                      -- the running handler calls `ResponseWriter.Write` (any number of times)
   | downEnter (j : Nat)                      -- Shutdown: mutex region
   | downReturnNil (j : Nat)                  -- select: lastActive closed
   | downReturnCtx (j : Nat)                  -- select: ctx.Done()
@@ -182,7 +227,9 @@ def step (H : Hash) (cfg : Cfg) (s : St) : Label → Option St
     match s.serves[i]? with
     | some .running =>
       if s.connClosed.getD (s.connOf.getD i 0) 0 > 0 then none
-      else some (activeAdd { s with tasks := s.tasks ++ [⟨i, .spawned (classify H cfg peer d)⟩] })
+      else some (activeAdd { s with tasks := s.tasks ++ [⟨i, .spawned (classify H cfg peer d)⟩],
+                                    origin := s.origin ++ [⟨i, peer, d⟩],
+                                    log := s.log ++ [.recv s.tasks.length i peer d] })
     | _ => none
   | .serveReadErr i =>
     match s.serves[i]? with
@@ -216,13 +263,17 @@ def step (H : Hash) (cfg : Cfg) (s : St) : Label → Option St
     match s.tasks[t]? with
     | some ⟨i, .spawned fate⟩ =>
       (match fate with
-       | .handle key _ =>
+       | .handle key p =>
          if (s.inflight.getD i []).contains key then
            some (activeDone { s with tasks := s.tasks.set t ⟨i, .done⟩, log := s.log ++ [.dropped t] })
          else
+           -- `response := packetResponseWriter{conn, remoteAddr}`,
+           -- `request := Request{LocalAddr: conn.LocalAddr(), RemoteAddr: remoteAddr, Packet: packet, ctx: s.ctx}`,
+           -- `s.Handler.ServeRADIUS(&response, &request)`
            some { s with tasks := s.tasks.set t ⟨i, .inHandler key⟩,
                          inflight := s.inflight.set i (key :: s.inflight.getD i []),
-                         log := s.log ++ [.handlerStart t key] }
+                         log := s.log ++ [.request t p (s.peerOf t) (s.connOf.getD i 0) .server,
+                                          .handlerStart t key] }
        | _ => some (activeDone { s with tasks := s.tasks.set t ⟨i, .done⟩, log := s.log ++ [.dropped t] }))
     | _ => none
   | .taskFinish t =>
@@ -231,6 +282,12 @@ def step (H : Hash) (cfg : Cfg) (s : St) : Label → Option St
       some (activeDone { s with tasks := s.tasks.set t ⟨i, .done⟩,
                                  inflight := s.inflight.set i ((s.inflight.getD i []).erase key),
                                  log := s.log ++ [.handlerEnd t] })
+    | _ => none
+  | .taskReply t =>
+    match s.tasks[t]? with
+    | some ⟨i, .inHandler _⟩ =>
+      -- `r.conn.WriteTo(encoded, r.addr)` with the writer built in `taskRun`
+      some { s with log := s.log ++ [.reply t (s.connOf.getD i 0) (s.peerOf t)] }
     | _ => none
   | .downEnter j =>
     match s.downs[j]? with
